@@ -136,9 +136,9 @@ def schedules(draw, max_size=300):
 
 
 @st.composite
-def pyramid_cases(draw, max_depth, with_k=True, kmax=8):
+def pyramid_cases(draw, max_depth, with_k=True, kmax=8, min_depth=0):
     kind = draw(st.sampled_from(["generic", "toast", "filtered", "filtered", "filtered"]))
-    depth = draw(st.integers(0, max_depth))
+    depth = draw(st.integers(min_depth, max_depth))
     case = {"kind": kind, "depth": depth}
     if kind == "filtered":
         case["filter"] = draw(gens.filter_specs(depth))
